@@ -226,9 +226,37 @@ let judge (_id : int) (cc : cursor) (ic : cursor) : bool * string =
                                | "ls" -> "POMDP::LinearSupport::operator()" | _ -> failwith "alg") in
     judge_generic "solver_reuse_independent" site (d1 <> d2) ("pomdp_" ^ alg) ic
   | "sarsop" ->
-    ignore (next cc);
-    let d1 = skip_pomdp cc in ignore (next_qs cc); let d2 = skip_pomdp cc in
-    judge_generic "solver_reuse_independent" "POMDP::SARSOP::operator()" (d1 <> d2) "sarsop" ic
+    ignore (next cc); ignore (next cc);
+    let d1 = skip_pomdp cc in ignore (next_list cc next); let d2 = skip_pomdp cc in
+    let site = "POMDP::SARSOP::operator()" in
+    check_abnormal ic site;
+    let runs = read_runs ic in
+    (match runs with
+     | [["CHILD_TIMEOUT"]] -> (false, "sarsop_not_converging")
+     | [[t]] when String.length t > 13 && String.sub t 0 13 = "CHILD_SIGNAL_" -> oracle_fail "no_crash" site t
+     | _ ->
+       check_equal "solver_reuse_independent" site runs;
+       expect ic "X";
+       let moved = next ic in let init = next ic in
+       (d1 <> d2 && moved <> init, if moved <> init then "sarsop_delta_moved" else "sarsop"))
+  | "gapmin" ->
+    ignore (next cc); ignore (next cc);
+    let d1 = skip_pomdp cc in ignore (next_list cc next); let d2 = skip_pomdp cc in
+    let site = "POMDP::GapMin::operator()" in
+    check_abnormal ic site;
+    let runs = read_runs ic in
+    (match runs with
+     | [["CHILD_TIMEOUT"]] -> (false, "gapmin_not_converging")
+     | [[t]] when String.length t > 13 && String.sub t 0 13 = "CHILD_SIGNAL_" -> oracle_fail "no_crash" site t
+     | _ ->
+       check_equal "solver_reuse_independent" site runs;
+       expect ic "X";
+       let moved = next ic in let init = next ic in
+       (d1 <> d2 && moved <> init, if moved <> init then "gapmin_tolerance_moved" else "gapmin"))
+  | "pbreuse" ->
+    let alg = next cc in ignore (next cc);
+    let d1 = skip_pomdp cc in let d2 = skip_pomdp cc in
+    judge_generic "solver_reuse_independent" (if alg = "pbvi" then "POMDP::PBVI::operator()" else "POMDP::PERSEUS::operator()") (d1 <> d2) ("pbreuse_" ^ alg) ic
   | "seeded" ->
     let alg = next cc in let p1 = next_int cc in let p2 = next_int cc in
     judge_generic "program_deterministic" alg (p1 <> p2) ("seeded_" ^ alg) ic
